@@ -1,7 +1,8 @@
 (* C14 -- the language server depends only on the current buffers and survives any request. *)
 From Coq Require Import List NArith Arith Bool.
 Import ListNotations.
-From Mos Require Import model.Utf model.Lsp spec.LspSpec proofs.LspStrProofs proofs.LspDeltaProofs proofs.LspBookProofs.
+From Mos Require Import model.Utf model.Lsp spec.LspSpec proofs.LspStrProofs proofs.LspLineColProofs proofs.LspDeltaProofs
+  proofs.LspBookProofs proofs.LspFreshProofs.
 
 (* ---- bookkeeping, for every history (any length, any number of files) and every abstract analysis (`world`) ---- *)
 
@@ -41,6 +42,18 @@ Theorem C14_depends_only_on_current_buffers : forall (w : world), world_ok w ->
 Proof. exact w_depends_only_on_buffers. Qed.
 Print Assumptions C14_depends_only_on_current_buffers.
 
+(* the property as the text states it: the server after ANY history h and a freshly started server that is only given the final
+   buffer contents (`fresh_history bufs`: one didOpen per document; bufs are h's final buffers) show the same diagnostics for
+   every file and answer every subsequent request identically *)
+Theorem C14_history_equals_fresh_server : forall (w : world), world_ok w -> forall h bufs o o',
+  run_w w h = Ok o -> run_w w (fresh_history _ _ bufs) = Ok o' ->
+  (forall p, final_buffers _ _ (w_path_eqb w) h p = lookup (w_path_eqb w) p (rev bufs)) -> bufs <> [] -> notified _ _ h = true ->
+  (forall p, shown_for (w_path_eqb w) o p = shown_for (w_path_eqb w) o' p) /\
+  (forall e o1 o1', is_request _ _ e = true -> run_w w (h ++ [e]) = Ok o1 -> run_w w (fresh_history _ _ bufs ++ [e]) = Ok o1' ->
+     hd None (log o1) = hd None (log o1')).
+Proof. exact history_equals_fresh. Qed.
+Print Assumptions C14_history_equals_fresh_server.
+
 (* ---- positions: Rust's byte-indexed string operations and the code map, with the exact panic conditions ---- *)
 
 (* &s[..n], &s[n..], s.split_at(n): panic iff n is not a char boundary of s (past the end, or inside a multi-byte char) *)
@@ -64,6 +77,18 @@ Theorem C14_source_line_panics_iff : forall src line,
   (line < num_lines src -> source_line src line = Ok (trim_end_nl (nth line (split_nl src) []))).
 Proof. exact source_line_spec. Qed.
 Print Assumptions C14_source_line_panics_iff.
+
+(* File::find_line_col (the source of every line/column the server returns): panics iff the byte position is not a char
+   boundary of the file (which includes positions past its end); otherwise the position lies inside the document: the line
+   exists, the column is at most the number of characters of that line, and (line, column) denotes exactly that byte position *)
+Theorem C14_find_line_col_inside : forall src pos,
+  (find_line_col src pos = Panic <-> ~ is_char_boundary src pos) /\
+  (forall l c, find_line_col src pos = Ok (l, c) ->
+     l < num_lines src /\ c <= length (nth l (split_nl src) []) /\
+     exists x y, nth l (split_nl src) [] = x ++ y /\ length x = c /\
+                 pos = total_len (firstn l (split_nl src)) + byte_len x).
+Proof. exact find_line_col_spec. Qed.
+Print Assumptions C14_find_line_col_inside.
 
 (* prepareRename's position arithmetic for EVERY client position: never panics; answers a range exactly when the line exists
    and the column is at most the line's length, and that range lies inside the line and contains the cursor *)
